@@ -154,4 +154,37 @@ theorem report_ok_structural {m : Model α} {b : BoundsMap α} {d : List (DomVar
   exact ⟨⟨⟨⟨⟨⟨⟨vars_sorted_nodup hd h, vars_eq_domain_keys hd h⟩, row_lengths h⟩, objective_length h⟩,
     names_unique h⟩, source_vars_present hk h⟩, user_names_kept h⟩, aux_disjoint hdecl h⟩
 
+/-! ### 6. finiteness of every emitted constant -/
+
+/-- `finite_out` holds when the source has no non-finite literal: every coefficient, right-hand side and the
+offset of the compiled model are finite.  No hypothesis on the bounds map is needed: every big-M constant is
+built from derived bounds only AFTER the linearizer has checked them finite (otherwise it fails with
+`missingFiniteBounds`), a division by a zero literal is rejected, and in `Ext K` finite ∘ finite is finite for
+`+ − ×`, `÷` by a non-zero, `max`/`min` of a non-empty list (`closed_isFinite`).  `K` is ANY `ExactField`
+(`Rat`, or an ordered field through `Rooc/Proofs/Field.lean`); the hypothesis is genuinely needed, see
+`finite_out_counterexample`. -/
+theorem finite_out_partial {K : Type} [ExactField K] {m : Model (Ext K)} {b : BoundsMap (Ext K)}
+    {d : List (DomVar (Ext K))} {lm : LinModel (Ext K)}
+    (hfin : FiniteLits m = true) (h : linearizeWith m b d = .ok lm) :
+    (WF.report m lm).finite = true := by
+  have hp := closed_isFinite K
+  simp only [FiniteLits, Bool.and_eq_true] at hfin
+  obtain ⟨obj, s, _, hok, hobj, rfl⟩ :=
+    linearizeWith_run (N := fun _ => True) trivial hp (simpOK_of_closed hp) hfin.1
+      (stOK_init_of_finiteLits b d (by simp only [FiniteLits, Bool.and_eq_true]; exact hfin)) h
+  exact finite_of_ok hp hok hobj
+
+/-- with all hypotheses, the whole report (finiteness included) is green. -/
+theorem report_ok_partial {K : Type} [ExactField K] {m : Model (Ext K)} {b : BoundsMap (Ext K)}
+    {d : List (DomVar (Ext K))} {lm : LinModel (Ext K)}
+    (hd : DomainNodup d = true) (hk : UsedKept m d = true) (hdecl : DeclaredIn m d = true)
+    (hfin : FiniteLits m = true) (h : linearizeWith m b d = .ok lm) :
+    (WF.report m lm).ok true = true := by
+  have h1 := report_ok_structural hd hk hdecl h
+  have h2 := finite_out_partial hfin h
+  simp only [WF.Report.ok, Bool.and_eq_true, Bool.or_eq_true, Bool.not_false, or_true, and_true] at h1
+  simp only [WF.Report.ok, Bool.and_eq_true, Bool.or_eq_true, Bool.not_true, Bool.false_eq_true, or_false]
+  exact ⟨⟨⟨⟨⟨⟨⟨⟨h1.1.1.1.1.1.1.1, h1.1.1.1.1.1.1.2⟩, h1.1.1.1.1.1.2⟩, h1.1.1.1.1.2⟩, h2⟩, h1.1.1.1.2⟩,
+    h1.1.1.2⟩, h1.1.2⟩, h1.2⟩
+
 end Rooc.Props.C08
